@@ -22,6 +22,7 @@ import (
 	"sort"
 	"strconv"
 	"strings"
+	"sync"
 	"time"
 
 	"github.com/quay/zlog"
@@ -232,6 +233,12 @@ type World struct {
 	Lib    *libindex.Libindex
 	Cfg    Config
 	Tokens []string // state tokens of the configs since reset, in order
+	// Concurrency is passed as LayerScanConcurrency (0 = 1). With more than one
+	// scanner goroutine the call numbering depends on the schedule, so such
+	// worlds are used for direct checks only, never for the line protocol.
+	Concurrency int
+
+	mu sync.Mutex // guards the per-call fields below and Scans/Fetches
 
 	layerNo map[string]int
 
@@ -265,6 +272,8 @@ var letters = map[string]byte{
 // enter numbers a call and decides its fate. It returns (err, commit):
 // err == nil: proceed; err != nil && commit: apply the effect, then fail.
 func (w *World) enter(ctx context.Context, letter byte) (error, bool) {
+	w.mu.Lock()
+	defer w.mu.Unlock()
 	if !w.active {
 		return nil, false
 	}
@@ -333,16 +342,19 @@ func (s *stub) scan(ctx context.Context, l *claircore.Layer) ([]int, error) {
 	if err != nil && !commit {
 		return nil, err
 	}
+	s.w.mu.Lock()
 	if !l.Fetched() {
-		if s.w.active {
+		if s.w.active && s.w.Concurrency <= 1 {
 			// the call was traced as successful; it is not
 			s.w.trace[len(s.w.trace)-1] = 's'
-			s.w.failed = true
 		}
+		s.w.failed = true
+		s.w.mu.Unlock()
 		return nil, fmt.Errorf("stub scanner %s: layer %s was not fetched", s.spec.Name, l.Hash)
 	}
 	n := s.w.layerNo[l.Hash.String()]
 	s.w.Scans = append(s.w.Scans, ScanEvent{Layer: n, Scanner: memstore.ScannerKey{Name: s.Name(), Version: s.Version(), Kind: s.Kind()}})
+	s.w.mu.Unlock()
 	if err != nil {
 		return nil, err
 	}
@@ -464,7 +476,9 @@ func (r *realizer) Realize(ctx context.Context, ls []*claircore.Layer) error {
 			return ierr
 		}
 		r.inited = append(r.inited, l)
+		r.w.mu.Lock()
 		r.w.Fetches = append(r.w.Fetches, r.w.layerNo[l.Hash.String()])
+		r.w.mu.Unlock()
 	}
 	return err
 }
@@ -554,7 +568,7 @@ func (w *World) Configure(cfg Config) (string, error) {
 		Store:                w.Store,
 		Locker:               updates.NewLocalLockSource(),
 		FetchArena:           &arena{w: w},
-		LayerScanConcurrency: 1,
+		LayerScanConcurrency: max(1, w.Concurrency),
 		Ecosystems:           w.ecosystems(cfg),
 	}
 	lib, err := libindex.New(ctx, opts, http.DefaultClient)
@@ -674,8 +688,10 @@ func (w *World) Index(layers []int, script Script, dead bool) Result {
 	if dead {
 		cancel()
 	}
+	w.mu.Lock()
 	w.active, w.pos, w.script, w.crashed, w.failed, w.cancel, w.trace = true, 0, script, false, false, cancel, nil
 	s0, f0 := len(w.Scans), len(w.Fetches)
+	w.mu.Unlock()
 	type ret struct {
 		ir    *claircore.IndexReport
 		err   error
@@ -702,11 +718,15 @@ func (w *World) Index(layers []int, script Script, dead bool) Result {
 		case r = <-ch:
 		case <-time.After(20 * time.Second):
 			// the goroutine is lost; the world must not be used any more
+			w.mu.Lock()
 			w.active = false
+			w.mu.Unlock()
 			return res
 		}
 	}
+	w.mu.Lock()
 	w.active = false
+	w.mu.Unlock()
 	res.Panic = r.panic
 	res.ErrClass = classOf(r.err)
 	res.Nil = r.ir == nil
